@@ -40,7 +40,18 @@ TIERS = {
     "quick": {"runs": 560, "chunk": 10, "wall": 100, "chunk_timeout": 400, "selftest": 6},
     "thorough": {"runs": 8000, "chunk": 25, "wall": 800, "chunk_timeout": 900, "selftest": 10},
 }
-EXPECTED_PROBES = {t: ["depth3_module", "dotted_path_3", "service_in_module", "device_in_module", "impl_in_module",
+ISOLATE_RUNS = True
+
+
+def preload():
+    from .kit import setup_repo_path
+    setup_repo_path()
+    import importlib
+    for m in ("fcp.parser", "fcp.error"):
+        importlib.import_module(m)
+
+
+EXPECTED_PROBES = {t: ["configurations_in_place", "depth3_module", "dotted_path_3", "service_in_module", "device_in_module", "impl_in_module",
                        "enum_in_module", "module_uses_grandchild_decl", "missing_at_depth3", "two_modules_same_basename"]
                    for t in TIERS}
 
@@ -112,7 +123,7 @@ def make_fault(rng, node, kind, files):
 
 def judge(par, base: Path, files, root_rel, expect, logger_mode):
     """expect: ("same", single_cats) | ("names", basename, extra). Returns (violations, outcome)."""
-    K.write_files(base, files)
+    K.sync_files(base, files)
     res = par.parse("file", base / root_rel, logger_mode)
     out = res["outcome"]
     if out == "hang":
@@ -225,13 +236,20 @@ def run_one(seed: int, index: int, tier: str) -> dict:
             res["digest"] = "x"
             return res
         tree_json = K.strip_node(root)
+        # all configurations of the run live in ONE directory that is modified in place (a long-lived process re-reading
+        # files a crash or an editor changed under it); a share of runs uses a fresh directory per configuration instead
+        inplace = stream(run_seed, "swarm2").random() < 0.7
+        if inplace:
+            probes["configurations_in_place"] += 1
+        prev = []
         # fault-free
-        sub = base / "t0"
+        sub = base / "tree" if inplace else base / "t0"
         v, out = judge(par, sub, files, "main.fcp", ("same", want), logger_mode)
+        prev.append(files)
         res["evals"] += 1
         tr.add("clean", outcome=out, v=[x[:2] for x in v])
         for x in v:
-            res["violations"].append(mk(x, {"tree": tree_json, "fault": None, "logger": logger_mode}, index))
+            res["violations"].append(mk(x, {"tree": tree_json, "fault": None, "logger": logger_mode, "history": []}, index))
         if len(nodes) > 1:
             distinct.add(short([shape, "clean"]))
         # one fault per module and kind
@@ -240,9 +258,11 @@ def run_one(seed: int, index: int, tier: str) -> dict:
             for kind in ("missing", "syntax_token", "syntax_torn", "resolve"):
                 k += 1
                 ffiles, detail = make_fault(rf, n, kind, files)
-                sub = base / f"t{k}"
+                sub = base / "tree" if inplace else base / f"t{k}"
                 bname = os.path.basename(n["file"])
                 v, out = judge(par, sub, ffiles, "main.fcp", ("names", bname, detail.get("type"), kind), logger_mode)
+                hist = prev[-2:] if inplace else []
+                prev.append(ffiles)
                 res["evals"] += 1
                 faults[kind] += 1
                 if kind == "missing" and d == 3:
@@ -252,7 +272,8 @@ def run_one(seed: int, index: int, tier: str) -> dict:
                 for x in v:
                     res["violations"].append(mk(x, {"tree": tree_json, "fault": {"file": n["file"], "kind": kind,
                                                                                   "text": ffiles.get(n["file"])},
-                                                    "logger": logger_mode, "expect_type": detail.get("type")}, index))
+                                                    "logger": logger_mode, "expect_type": detail.get("type"),
+                                                    "history": hist}, index))
     res["digest"] = tr.digest()
     res["probes"] = probes
     res["faults"] = faults
@@ -291,6 +312,10 @@ def check_workload(w):
     out = []
     with Scratch("c20r") as base:
         want, _ = single_cats(par, base, root)
+        # earlier configurations of the same directory, parsed by the same process (not judged)
+        for hf in w.get("history", []):
+            K.sync_files(base / "t", hf)
+            par.parse("file", base / "t" / "main.fcp", w.get("logger", "fresh"))
         if w["fault"] is None:
             v, _ = judge(par, base / "t", files, "main.fcp", ("same", want), w.get("logger", "fresh"))
         else:
